@@ -611,6 +611,10 @@ class SV:
     def _cmp(self, o, f, eq=False):
         if isinstance(o, np.ndarray):
             return NotImplemented
+        if isinstance(o, (float, np.floating)) and o in (float("inf"), float("-inf")):
+            # symbolic reals are finite: compare a representative finite value with the infinity
+            r = bool(f(0.0, float(o)))
+            return SB(z3.And(z3.Not(self.nan), z3.BoolVal(r)))
         o = lift(o)
         if isinstance(o, SC):
             return NotImplemented
@@ -837,6 +841,8 @@ class SC:
         return toc(o) / self
 
     def __pow__(self, k):
+        if isinstance(k, (int, np.integer)) and k == 0:
+            return SC(z3.RealVal(1), z3.RealVal(0), self.nan)
         if not isinstance(k, (int, np.integer)) or k < 1:
             raise ShimGap(f"complex power {k!r}")
         r = self
@@ -992,6 +998,19 @@ def differs(a, b):
         return _or(a.nan, b.nan, nf != 0)
     except z3.Z3Exception:
         return _or(a.nan, b.nan, diff != 0)
+
+
+def differs_nan(a, b):
+    """like differs, but NaN in the same place counts as equal (for tables with a symbolic NaN pattern)"""
+    a, b = lift(a), lift(b)
+    if isinstance(a, SC) or isinstance(b, SC):
+        a, b = toc(a), toc(b)
+        na, nb = a.nan, b.nan
+        val = z3.Or(differs(SV(a.re, d=a.d), SV(b.re, d=b.d)), differs(SV(a.im, d=a.d), SV(b.im, d=b.d)))
+    else:
+        na, nb = a.nan, b.nan
+        val = differs(SV(a.v, d=a.d), SV(b.v, d=b.d))
+    return z3.Or(na != nb, z3.And(z3.Not(na), val))
 
 
 def far(a, b, tol):
